@@ -17,6 +17,8 @@ def cases(tier, seed):
             if tier == "quick" and m in (3,) and k in (1.0, 3.0, 123.456789012345):
                 continue
             yield {"kind": "cpp-filter", "m": m, "k": k}
+    for shape, sens in (((2, 1, 1), (1, 2)), ((3, 1, 0), (2, 1, 3))):
+        yield {"kind": "cpp-discard", "shape": list(shape), "sens": list(sens), "k": 5.0, "m": 0, "seed": seed}
 
 
 def eval_helper(case):
@@ -107,5 +109,68 @@ def eval_filter(case):
             "sample": {"kind": "cpp-filter", "m": m, "k": k, "readings": [zz for _, _, _, zz in meta[:3]]}}
 
 
+def eval_discard(case):
+    """generated C++ filter, general definition: a discarded reading returns state and covariance bit for bit"""
+    import struct
+    from fv import space
+    from fv.ekfref import RefEKF, cov_menu
+    from fv import refmodel as R
+    from fv.props import c06
+    n_, k_, c_ = case["shape"]
+    k = case["k"]
+    d = space.bind_def(n_, k_, c_, order=3, sensors_shape=tuple(case["sens"]))
+    ref = RefEKF(d)
+    ns = len(ref.st)
+    dense = [list(map(float, r)) for r in cov_menu(ns, "quick")[2][1]]
+    ulp = [list(r) for r in dense]
+    ulp[0][ns - 1] = nextafter(ulp[0][ns - 1], inf)
+    env = next(iter(space.some_points(ref.st + ref.ct, 1, case["seed"])))
+    full = ref.env(env)
+    hx = {key: [float(v) for v in ref.hx(key, full)] for key in ref.h}
+    pts, meta = [], []
+    for pname, P in (("dense", dense), ("dense+1ulp", ulp)):
+        for key in sorted(ref.h):
+            names = ref.readings(key)
+            m = len(names)
+            T = c06.threshold(k, m)
+            for label, off in [("1e3", 1e3), ("-1e6", -1e6)] + ([("+inf", inf), ("-inf", -inf)] if m == 1 else []):
+                for pos in range(m):
+                    z = [h + (off if i == pos else 0.0) for i, h in enumerate(hx[key])]
+                    if off not in (inf, -inf):
+                        nis = float(ref.update(key, full, R.M(P), [R.mp.mpf(v) for v in z])[4])
+                        if not nis > 100 * T:
+                            continue
+                    zall = {kk: dict(zip(ref.readings(kk), hx[kk])) for kk in ref.h}
+                    zall[key] = dict(zip(names, z))
+                    pts.append({"dt": 0.125, "x": {s_: env[s_] for s_ in ref.st}, "u": {s_: env[s_] for s_ in ref.ct}, "P": P, "z": zall})
+                    meta.append((pname, key, label, names[pos], P))
+    res = cppharness.build_and_run_ekf(d, {"innovation_filtering": k}, pts)
+    fails = []
+
+    def fail(key, what):
+        if not any(f["key"].startswith(key) for f in fails):
+            fails.append({"key": f"{key}:cpp-discard", "what": f"{d['name']} k={k}: {what}"})
+
+    if not res["ok"]:
+        fail(f"{res['stage']}-failed", res["error"])
+        return {"n": 1, "fails": fails}
+    bits = lambda v: struct.pack("<d", float(v)) if v is not None else None
+    for p, (pname, key, label, rname, P) in enumerate(meta):
+        got = res["results"].get(p, {})
+        ux = [got.get(("ux", key, s_)) for s_ in ref.st]
+        uP = [[got.get(("uP", key, str(i), str(j))) for j in range(ns)] for i in range(ns)]
+        if [bits(v) for v in ux] != [bits(env[s_]) for s_ in ref.st]:
+            fail("discard-changes-state", f"prior {pname}, sensor {key}, outlier {label} in reading {rname}: state "
+                 f"{[env[s_] for s_ in ref.st]} -> {ux}")
+        if [[bits(v) for v in r] for r in uP] != [[bits(v) for v in r] for r in P]:
+            fail("discard-changes-covariance", f"prior {pname}, sensor {key}, outlier {label} in reading {rname}: covariance {P} -> {uP} "
+                 f"(bitwise comparison)")
+    return {"n": len(meta), "fails": fails, "sigs": [f"cppdisc:{case['shape']}:{k}:{i}" for i in range(len(meta))],
+            "outcomes": ["discard", "cpp-discard-general"],
+            "sample": {"kind": "cpp-discard", "definition": d["name"], "k": k, "calls": len(meta)}}
+
+
 def eval_case(case):
+    if case["kind"] == "cpp-discard":
+        return eval_discard(case)
     return eval_helper(case) if case["kind"] == "cpp-helper" else eval_filter(case)
